@@ -1,0 +1,6 @@
+//go:build !verif
+
+package replica
+
+// verifStepwise is always false without the verif build tag.
+func verifStepwise() bool { return false }
